@@ -243,7 +243,7 @@ Section Shard.
       destruct (Z.ltb_spec (Z.of_nat (q i)) (Z.of_nat a)) as [Hlt|Hge].
       + (* a shorter prefix: restart the split list *)
         replace (Nat.min a (q i)) with (q i) in * by lia.
-        change [Z.of_nat i + 1] with (map Z.of_nat [S i]) || replace (Z.of_nat i + 1) with (Z.of_nat (S i)) by lia.
+        replace (Z.of_nat i + 1) with (Z.of_nat (S i)) by lia.
         change [Z.of_nat (S i)] with (map Z.of_nat [S i]).
         rewrite (IH (q i) [S i] Hin'). f_equal. f_equal. f_equal.
         destruct (Nat.ltb_spec (fmin (map q is) (q i)) a); [|lia].
@@ -263,5 +263,262 @@ Section Shard.
         * replace (Nat.min a (q i)) with a in * by lia.
           rewrite (IH a E Hin'). f_equal. f_equal. f_equal. f_equal.
           destruct (Nat.eqb_spec (q i) (fmin (map q is) a)); [lia|reflexivity].
+  Qed.
+
+  Lemma shard_split_top s e : (e <= length keys)%nat ->
+    shard_split fd (idx_range (Z.of_nat s) (Z.of_nat e)) (zlen (K s)) [] =
+    Some (Z.of_nat (M s e), map Z.of_nat (split_ends (M s e) (seq s (e - s - 1)))).
+  Proof.
+    intros He. rewrite idx_range_nat.
+    assert (Hin : forall i, In i (seq s (e - s - 1)) -> (S i < length keys)%nat)
+      by (intros i Hi; apply in_seq in Hi; lia).
+    etransitivity; [exact (shard_split_ok (seq s (e - s - 1)) (length (K s)) [] Hin)|].
+    unfold M, mlen. f_equal. f_equal. f_equal.
+    destruct (Nat.ltb _ _); reflexivity.
+  Qed.
+
+  (** ** order of the keys *)
+  Hypothesis Hasc : strict_asc keys.
+
+  Lemma K_adj_lt i : (S i < length keys)%nat -> bytes_cmp (K i) (K (S i)) = Lt.
+  Proof.
+    intros H. apply (Hasc (K i, K (S i))). unfold K.
+    rewrite <- (c17_adj_pairs_nth [] keys i H). apply nth_In. rewrite c17_adj_pairs_length. lia.
+  Qed.
+
+  (** keys [i] < [i+n+1], and their common prefix is the shortest of the adjacent ones between them *)
+  Lemma lcp_range : forall n i, (S (i + n) < length keys)%nat ->
+    bytes_cmp (K i) (K (S (i + n))) = Lt /\
+    length (lcp_bytes (K i) (K (S (i + n)))) = mlen (S i) n (q i).
+  Proof.
+    induction n as [|n IH]; intros i H.
+    - rewrite Nat.add_0_r in *. split; [now apply K_adj_lt|reflexivity].
+    - destruct (IH i ltac:(lia)) as [Hlt Hlen].
+      replace (i + S n)%nat with (S (i + n)) by lia.
+      pose proof (K_adj_lt (S (i + n)) ltac:(lia)) as Hadj.
+      split.
+      + exact (lex_lt_trans Z.compare Z.compare_eq_iff Z_cmp_lt_trans _ _ _ Hlt Hadj).
+      + unfold lcp_bytes.
+        rewrite (lcp_sorted3 Z.compare Z.eqb Z_eqb_spec Z.compare_eq_iff Z_cmp_lt_trans _ _ _ Hlt Hadj).
+        fold lcp_bytes. rewrite Hlen, mlen_snoc. reflexivity.
+  Qed.
+
+  (** ** what one call of [dfs] appends: shards (start, end, prefix length) *)
+  Definition triple := (nat * nat * nat)%type.
+  Definition tb (t : triple) : nat := fst (fst t).
+  Definition te (t : triple) : nat := snd (fst t).
+  Definition tl (t : triple) : nat := snd t.
+  Definition pref (t : triple) : list Z := firstn (tl t) (K (tb t)).
+
+  (** contiguous shards from [s] to [e], none empty, none larger than [maxSize],
+      each with the common-prefix length of its keys *)
+  Fixpoint chain (s e : nat) (ts : list triple) : Prop :=
+    match ts with
+    | [] => s = e
+    | t :: r => tb t = s /\ (s < te t)%nat /\ Z.of_nat (te t) - Z.of_nat s <= maxSize /\
+                tl t = M s (te t) /\ chain (te t) e r
+    end.
+
+  Fixpoint asc (l : list (list Z)) : Prop :=
+    match l with
+    | a :: ((b :: _) as t) => bytes_cmp a b = Lt /\ asc t
+    | _ => True
+    end.
+
+  Definition app_st (st : shard_out) (ts : list triple) : shard_out :=
+    (fst st ++ map (fun t => Z.of_nat (tl t)) ts, snd st ++ map (fun t => Z.of_nat (te t)) ts).
+
+  Lemma app_st_app st t1 t2 : app_st (app_st st t1) t2 = app_st st (t1 ++ t2).
+  Proof. unfold app_st. cbn [fst snd]. now rewrite !map_app, !app_assoc. Qed.
+
+  Lemma chain_le : forall ts s e, chain s e ts -> (s <= e)%nat.
+  Proof.
+    induction ts as [|t r IH]; intros s e H; cbn [chain] in H; [lia|].
+    destruct H as (_ & H1 & _ & _ & H2). apply IH in H2. lia.
+  Qed.
+
+  Lemma chain_app : forall t1 s m e t2, chain s m t1 -> chain m e t2 -> chain s e (t1 ++ t2).
+  Proof.
+    induction t1 as [|t r IH]; intros s m e t2 H1 H2; cbn [chain app] in *; [now subst|].
+    destruct H1 as (A & B & C & D & E). repeat split; try assumption. eapply IH; eassumption.
+  Qed.
+
+  Lemma chain_last : forall ts s e t, chain s e (ts ++ [t]) ->
+    (s <= tb t)%nat /\ (tb t < te t)%nat /\ te t = e /\ tl t = M (tb t) (te t).
+  Proof.
+    induction ts as [|t0 r IH]; intros s e t H; cbn [chain app] in H.
+    - destruct H as (A & B & C & D & E). rewrite A. repeat split; try lia; assumption.
+    - destruct H as (A & B & C & D & E). apply IH in E. destruct E as (E1 & E2 & E3 & E4).
+      repeat split; try assumption; lia.
+  Qed.
+
+  Lemma asc_cons2 a b t : asc (a :: b :: t) <-> bytes_cmp a b = Lt /\ asc (b :: t).
+  Proof. reflexivity. Qed.
+
+  Lemma asc_app : forall l1 x y l2, asc (l1 ++ [x]) -> asc (y :: l2) -> bytes_cmp x y = Lt ->
+    asc ((l1 ++ [x]) ++ y :: l2).
+  Proof.
+    induction l1 as [|a l1 IH]; intros x y l2 H1 H2 Hxy.
+    - cbn [app]. apply asc_cons2. now split.
+    - destruct l1 as [|b l1].
+      + cbn [app] in *. apply asc_cons2 in H1. destruct H1 as [Hab _].
+        apply asc_cons2. split; [exact Hab|]. apply asc_cons2. now split.
+      + cbn [app] in H1. apply asc_cons2 in H1. destruct H1 as [Hab H1].
+        cbn [app]. apply asc_cons2. split; [exact Hab|]. apply (IH x y l2); assumption.
+  Qed.
+
+  Lemma strict_ascb_asc : forall l, asc l -> strict_ascb l = true.
+  Proof.
+    induction l as [|a l IH]; intros H; [reflexivity|].
+    destruct l as [|b t]; [reflexivity|].
+    apply asc_cons2 in H. destruct H as [Hab Ht]. unfold strict_ascb in *.
+    rewrite c17_adj_pairs_cons2. cbn [forallb fst snd]. rewrite Hab. cbn [andb]. apply IH. exact Ht.
+  Qed.
+
+  (** ** the split: groups of a too large range *)
+  Section Split.
+    Variables (lam e F : nat).
+
+    (** [groups a ends]: the ranges [a, ends0), [ends0, ends1), ..., [.., e) -- every adjacent
+        common prefix inside a group is longer than [lam], the one across each boundary is [lam] *)
+    Inductive groups : nat -> list nat -> Prop :=
+    | g_last a : (a < e)%nat -> (e - a <= F)%nat ->
+        (forall j, (a <= j)%nat -> (S j < e)%nat -> (lam < q j)%nat) -> groups a [e]
+    | g_cons a i r : (a <= i)%nat -> (S i < e)%nat -> (S i - a <= F)%nat ->
+        (forall j, (a <= j < i)%nat -> (lam < q j)%nat) -> q i = lam ->
+        groups (S i) r -> groups a (S i :: r).
+
+    Lemma groups_build s0 : (e - s0 <= S F)%nat -> forall n a a',
+      (s0 <= a)%nat -> (a <= a')%nat -> S (a' + n) = e ->
+      (forall j, (a <= j < a')%nat -> (lam < q j)%nat) ->
+      (forall j, (a' <= j < a' + n)%nat -> (lam <= q j)%nat) ->
+      ((s0 < a)%nat \/ exists j, (a' <= j < a' + n)%nat /\ q j = lam) ->
+      groups a (split_ends lam (seq a' n) ++ [e]).
+    Proof.
+      intros HF. induction n as [|n IH]; intros a a' Hs0 Ha He Hin Hge Hex.
+      - cbn [seq split_ends filter map app]. apply g_last; [lia| |intros j H1 H2; apply Hin; lia].
+        destruct Hex as [H|(j & Hj & _)]; lia.
+      - cbn [seq]. unfold split_ends. cbn [filter].
+        destruct (Nat.eqb_spec (q a') lam) as [Heq|Hne].
+        + cbn [map app]. apply g_cons; try lia; [exact Hin|].
+          apply (IH (S a') (S a')); try lia.
+          * intros j Hj. apply Hge. lia.
+        + apply (IH a (S a')); try lia.
+          * intros j Hj. destruct (Nat.eq_dec j a') as [->|Hj'].
+            -- specialize (Hge a' ltac:(lia)). lia.
+            -- apply Hin. lia.
+          * intros j Hj. apply Hge. lia.
+          * destruct Hex as [H|(j & Hj & Hq)]; [now left|right].
+            exists j. split; [|exact Hq]. destruct (Nat.eq_dec j a') as [->|]; [contradiction|lia].
+    Qed.
+
+    Hypothesis He : (e <= length keys)%nat.
+    Hypothesis IHdfs : forall a b, (a < b)%nat -> (b <= e)%nat -> (b - a <= F)%nat -> forall st,
+      exists ts, dfs keys fd maxSize F (Z.of_nat a) (Z.of_nat b) st = Some (app_st st ts) /\
+                 chain a b ts /\ Forall (fun t => (M a b <= tl t)%nat) ts /\ asc (map pref ts).
+
+    Lemma dfs_each_ok : forall a ends, groups a ends -> (lam <= length (K a))%nat -> forall st,
+      exists ts, dfs_each (dfs keys fd maxSize F) (map Z.of_nat ends) (Z.of_nat a) st = Some (app_st st ts) /\
+                 chain a e ts /\ Forall (fun t => (lam <= tl t)%nat) ts /\
+                 ((lam < length (K a))%nat -> Forall (fun t => (lam < tl t)%nat) ts) /\
+                 asc (map pref ts).
+    Proof.
+      induction 1 as [a Hae HF Hin|a i r Hai Hie HF Hin Hq Hg IH]; intros Hlam st.
+      - cbn [map dfs_each].
+        destruct (IHdfs a e Hae ltac:(lia) HF st) as (ts & Hd & Hc & Hf & Ha).
+        rewrite Hd. exists ts. split; [reflexivity|]. split; [exact Hc|]. split; [|split; [|exact Ha]].
+        + eapply Forall_impl; [|exact Hf]. intros t Ht. cbn beta in Ht.
+          assert (lam <= M a e)%nat; [|lia].
+          apply mlen_ge; [exact Hlam|]. intros j Hj. specialize (Hin j ltac:(lia) ltac:(lia)). lia.
+        + intros Hlt. eapply Forall_impl; [|exact Hf]. intros t Ht. cbn beta in Ht.
+          assert (lam < M a e)%nat; [|lia].
+          apply mlen_gt; [exact Hlt|]. intros j Hj. apply Hin; lia.
+      - cbn [map dfs_each].
+        destruct (IHdfs a (S i) ltac:(lia) ltac:(lia) HF st) as (ts1 & Hd1 & Hc1 & Hf1 & Ha1).
+        rewrite Hd1.
+        assert (Hadj : bytes_cmp (K i) (K (S i)) = Lt) by (apply K_adj_lt; lia).
+        assert (Hlen : (lam < length (K (S i)))%nat).
+        { pose proof (lex_lt_length Z.compare Z.eqb Z_eqb_spec Z.compare_eq_iff _ _ Hadj) as Hl.
+          fold lcp_bytes in Hl. fold (q i) in Hl. lia. }
+        destruct (IH ltac:(lia) (app_st st ts1)) as (ts2 & Hd2 & Hc2 & Hf2 & Hf2' & Ha2).
+        rewrite Hd2, app_st_app. exists (ts1 ++ ts2). split; [reflexivity|].
+        specialize (Hf2' Hlen).
+        assert (HM : (lam <= M a (S i))%nat).
+        { apply mlen_ge; [exact Hlam|]. intros j Hj. specialize (Hin j ltac:(lia)). lia. }
+        assert (HM' : (lam < length (K a))%nat -> (lam < M a (S i))%nat).
+        { intros Hlt. apply mlen_gt; [exact Hlt|]. intros j Hj. apply Hin; lia. }
+        split; [eapply chain_app; eassumption|]. split; [|split].
+        + apply Forall_app. split; [|exact Hf2].
+          eapply Forall_impl; [|exact Hf1]. intros t Ht. cbn beta in Ht. lia.
+        + intros Hlt. specialize (HM' Hlt). apply Forall_app. split; [|exact Hf2'].
+          eapply Forall_impl; [|exact Hf1]. intros t Ht. cbn beta in Ht. lia.
+        + (* the prefixes of the two parts, and across the boundary *)
+          assert (Hne1 : ts1 <> []) by (intros ->; cbn [chain] in Hc1; lia).
+          destruct (exists_last Hne1) as (ts1' & t1 & ->).
+          destruct ts2 as [|t2 ts2']; [cbn [chain] in Hc2; lia|].
+          rewrite !map_app. cbn [map]. rewrite map_app in Ha1. cbn [map] in Ha1.
+          apply asc_app; [exact Ha1|exact Ha2|].
+          pose proof (chain_last _ _ _ _ Hc1) as (L1 & L2 & L3 & L4).
+          cbn [chain] in Hc2. destruct Hc2 as (Hb2 & _).
+          apply Forall_inv in Hf2'.
+          assert (Hf1t : (M a (S i) <= tl t1)%nat).
+          { rewrite Forall_forall in Hf1. apply Hf1. apply in_or_app. right. now left. }
+          unfold pref. rewrite Hb2.
+          set (b0 := tb t1) in *.
+          destruct (lcp_range (i - b0) b0) as [Hlt Hlcp]; [lia|].
+          replace (S (b0 + (i - b0))) with (S i) in * by lia.
+          assert (Hl : length (lcp_bytes (K b0) (K (S i))) = lam).
+          { rewrite Hlcp. apply Nat.le_antisymm.
+            - destruct (Nat.eq_dec b0 i) as [E|E].
+              + rewrite E, Nat.sub_diag. cbn. lia.
+              + pose proof (mlen_le_q (S b0) (i - b0) (q b0) i ltac:(lia)). lia.
+            - apply mlen_ge.
+              + destruct (Nat.eq_dec b0 i) as [E|E]; [rewrite E; lia|]. specialize (Hin b0 ltac:(lia)). lia.
+              + intros j Hj. destruct (Nat.eq_dec j i) as [E|E]; [rewrite E; lia|]. specialize (Hin j ltac:(lia)). lia. }
+          apply (lex_trunc_lt Z.compare Z.eqb Z_eqb_spec Z.compare_eq_iff); [exact Hlt| |].
+          * fold lcp_bytes. rewrite Hl.
+            destruct (Nat.lt_ge_cases lam (length (K a))) as [Hlt'|Hge'].
+            -- left. specialize (HM' Hlt'). lia.
+            -- right. pose proof (q_le_len a) as Hqa.
+               assert (a = i).
+               { destruct (Nat.eq_dec a i) as [E|E]; [exact E|]. specialize (Hin a ltac:(lia)). lia. }
+               subst i. assert (b0 = a) by lia.
+               rewrite L4, L3. rewrite H. unfold M. replace (S a - a - 1)%nat with 0%nat by lia.
+               cbn. lia.
+          * fold lcp_bytes. rewrite Hl. exact Hf2'.
+    Qed.
+  End Split.
+
+  Hypothesis Hms : 1 <= maxSize.
+
+  (** ** the recursion *)
+  Lemma dfs_ok : forall fuel s e, (s < e)%nat -> (e <= length keys)%nat -> (e - s <= fuel)%nat -> forall st,
+    exists ts, dfs keys fd maxSize fuel (Z.of_nat s) (Z.of_nat e) st = Some (app_st st ts) /\
+               chain s e ts /\ Forall (fun t => (M s e <= tl t)%nat) ts /\ asc (map pref ts).
+  Proof.
+    induction fuel as [|F IH]; intros s e Hse He Hf st; [lia|].
+    cbn [dfs]. rewrite nthZ_keys by lia.
+    destruct (Z.leb_spec (Z.of_nat e - Z.of_nat s) maxSize) as [Hsz|Hsz].
+    - (* small enough: one shard *)
+      rewrite idx_range_nat. unfold zlen. rewrite shard_min_ok by lia. fold (M s e).
+      exists [(s, e, M s e)]. split; [reflexivity|]. split; [|split; [|exact I]].
+      + cbn [chain tb te tl fst snd]. repeat split; try lia.
+      + constructor; [cbn [tl snd]; lia|constructor].
+    - (* split *)
+      rewrite shard_split_top by exact He.
+      change [Z.of_nat e] with (map Z.of_nat [e]). rewrite <- map_app.
+      assert (Hg : groups (M s e) e F s (split_ends (M s e) (seq s (e - s - 1)) ++ [e])).
+      { apply (groups_build (M s e) e F s); try lia.
+        - intros j Hj. apply mlen_le_q. lia.
+        - right. unfold M. destruct (mlen_attain s (e - s - 1) (length (K s))) as [H|(j & Hj & Hq)].
+          + exists s. split; [lia|]. pose proof (q_le_len s).
+            pose proof (mlen_le_q s (e - s - 1) (length (K s)) s ltac:(lia)). lia.
+          + exists j. split; [lia|exact Hq]. }
+      destruct (dfs_each_ok (M s e) e F He) with (a := s) (ends := split_ends (M s e) (seq s (e - s - 1)) ++ [e]) (st := st)
+        as (ts & Hd & Hc & Hfa & _ & Ha).
+      + intros a b Hab Hbe HF st'. apply IH; lia.
+      + exact Hg.
+      + apply mlen_le_acc.
+      + exists ts. repeat split; assumption.
   Qed.
 End Shard.
